@@ -82,6 +82,16 @@ func genC07(t *rapid.T) c07Case {
 				c07Op{Kind: "block"}, c07Op{Kind: "block"})
 			continue
 		}
+		if rapid.IntRange(0, 9).Draw(t, "expire") == 0 {
+			// batches of two or three different tokens on one chain (one per block), then an event whose external height is far
+			// beyond every timeout: all of them (and every open bridge call) are released while that one event is processed
+			ch := rapid.IntRange(0, 1).Draw(t, "xchain")
+			for _, tk := range rapid.Permutation([]int{0, 1, 2}).Draw(t, "xtoks")[:rapid.IntRange(2, 3).Draw(t, "xn")] {
+				c.Ops = append(c.Ops, c07Op{Kind: "batch", Chain: ch, U: rapid.IntRange(0, 2).Draw(t, "xu"), Tok: tk, Amt: rapid.Int64Range(1, 300).Draw(t, "xamt")}, c07Op{Kind: "block"})
+			}
+			c.Ops = append(c.Ops, c07Op{Kind: "deposit", Chain: ch, U: 1, Amt: 5, What: 99}, c07Op{Kind: "block"})
+			continue
+		}
 		c.Ops = append(c.Ops, c07Op{Kind: rapid.SampledFrom(kinds).Draw(t, "kind"), Chain: rapid.IntRange(0, 1).Draw(t, "chain"), U: rapid.IntRange(0, 2).Draw(t, "u"),
 			O: rapid.IntRange(0, 3).Draw(t, "o"), Tok: rapid.IntRange(0, 2).Draw(t, "tok"), Amt: rapid.Int64Range(1, 3000).Draw(t, "amt"), What: rapid.IntRange(0, 9).Draw(t, "what"),
 			Dt: rapid.IntRange(0, len(c07Dts)-1).Draw(t, "dt"), Mask: rapid.Uint32Range(1, 15).Draw(t, "mask")})
@@ -100,10 +110,13 @@ func execC07(c c07Case, rec *ev.Recorder, tr *c07Trace) *Failure {
 	f := sim.NewFixture(sim.FixtureOptions{Chains: chains, Tokens: true, NumUsers: 3, OraclesPerChain: c.NumOracles})
 	gov := sim.GovAddr.String()
 	ctx := func() sdk.Context { return f.Ctx }
+	if tr != nil {
+		// every message executed at message level - also the oracle votes cast inside Observe, whose events carry what the
+		// event's processing released or cancelled - is part of what an observer sees
+		f.Tap = tr.msg
+	}
 	run := func(m sdk.Msg) sim.Result {
-		r := f.RunMsg(ctx(), m)
-		tr.msg(m, r)
-		return r
+		return f.RunMsg(ctx(), m)
 	}
 	var pendingTxs [][]byte
 	seqDelta := map[string]uint64{}
@@ -233,6 +246,14 @@ func execC07(c c07Case, rec *ev.Recorder, tr *c07Trace) *Failure {
 			}
 		case "deposit":
 			extH[ch] += uint64(op.What)
+			if op.What == 99 {
+				extH[ch] += 100_000_000 // far beyond every batch and bridge-call timeout
+				nb := 0
+				f.Keeper(ch).IterateOutgoingTxBatches(ctx(), func(*crosschaintypes.OutgoingTxBatch) bool { nb++; return false })
+				if nb >= 2 {
+					labels["several-batches-time-out-under-one-event"] = true
+				}
+			}
 			claim := &crosschaintypes.MsgSendToFxClaim{TokenContract: usdt.Contracts[ch], Amount: sdkmath.NewInt(op.Amt * 1000), Sender: sim.ExtAddrN(ch, "ext", 1), Receiver: u.Acc().String()}
 			if n, err := observe(ch, claim, extH[ch]); err == nil {
 				execClaim(f.Users[1], ch, n)
